@@ -269,3 +269,37 @@ func VC_C01_no_results() {
 	verifAssert(!vDiverted(vC01Void), "C01.no-results.reset-restores")
 	verifReached("C01.no-results")
 }
+
+func vC01ReCb1(i int) int { return i + 10 }
+func vC01ReCb2(i int) int { return i + 20 }
+
+// VC_C01_reapply: a mock applied again on the same mocker (callback after callback,
+// callback after stub, stub after callback) with no Reset in between: calls reach the
+// replacement given last, with the caller's argument.
+func VC_C01_reapply() {
+	vEnv()
+	vPristine(vTargetC01)
+	b := Create()
+	x, r := verifInt("x"), verifInt("r")
+	want := 0
+	switch verifChoice("sequence", 3) {
+	case 0:
+		b.Func(vTargetC01).Apply(vC01ReCb1)
+		b.Func(vTargetC01).Apply(vC01ReCb2)
+		want = x + 20
+	case 1:
+		b.Func(vTargetC01).Return(r)
+		b.Func(vTargetC01).Apply(vC01ReCb1)
+		want = x + 10
+	default:
+		b.Func(vTargetC01).Apply(vC01ReCb1)
+		b.Func(vTargetC01).Return(r)
+		want = r
+	}
+	verifAssert(vDiverted(vTargetC01), "C01.reapply.still-mocked")
+	f, ok := vInvoke(vTargetC01, "C01.reapply").(func(int) int)
+	verifAssert(ok && f(x) == want, "C01.reapply.calls-reach-the-replacement-given-last")
+	b.Reset()
+	verifAssert(!vDiverted(vTargetC01), "C01.reapply.reset-restores")
+	verifReached("C01.reapply")
+}
